@@ -30,6 +30,13 @@ class Unsupported(Exception):
     pass
 
 
+def kfmt(k):
+    """escape-free rendering of a (nested) key"""
+    if isinstance(k, tuple):
+        return "(" + ",".join(kfmt(x) for x in k) + ")"
+    return str(k)
+
+
 # ----------------------------------------------------------------------------------------------
 # values
 
@@ -106,7 +113,7 @@ class Ref(Val):
         self.mutable = mutable
 
     def key(self):
-        return "ref:%s:%s" % (self.root, self.path)
+        return "ref:%s:%s" % (kfmt(self.root), kfmt(self.path))
 
     def __repr__(self):
         return "&%s%s%s" % ("mut " if self.mutable else "", self.root, list(self.path) or "")
@@ -123,8 +130,8 @@ class Opaque(Val):
 
     def key(self):
         if not self.over:
-            return "opq:%s" % (self.k,)
-        return "opq:%s{%s}" % (self.k, ",".join("%s=%s" % (p, vkey(v)) for p, v in sorted(self.over.items(), key=lambda x: str(x[0]))))
+            return "opq:" + kfmt(self.k)
+        return "opq:%s{%s}" % (kfmt(self.k), ",".join("%s=%s" % (kfmt(p), vkey(v)) for p, v in sorted(self.over.items(), key=lambda x: str(x[0]))))
 
     def __repr__(self):
         return "Opaque<%s>%s" % (self.ty, self.k if not self.over else (self.k, self.over))
@@ -264,6 +271,7 @@ class Executor:
         self.solver_time = 0.0
         self.queries = 0
         self.names = {}
+        self.origin = {}        # z3 variable name -> key it was created for
         self.models = []        # (regex, handler)
         self.inline = []        # regexes of callee names to inline
         self.type_hooks = []    # (regex on type string, fn(ex, state, ty, key) -> Val)
@@ -276,9 +284,10 @@ class Executor:
 
     # ---- naming ------------------------------------------------------------------------------
     def sym(self, key):
-        s = str(key)
+        s = kfmt(key)
         if s not in self.names:
             self.names[s] = "v%d!%s" % (len(self.names), re.sub(r"[^A-Za-z0-9_.:@-]", "_", s)[-60:])
+            self.origin[self.names[s]] = s
         return self.names[s]
 
     # ---- fresh values ------------------------------------------------------------------------
@@ -317,7 +326,7 @@ class Executor:
         if s.startswith("(") and s.endswith(")"):
             inner = s[1:-1]
             # (P as Variant)
-            m = re.match(r"^(.*) as (\w+)$", inner)
+            m = re.match(r"^(.*) as ([\w#]+)$", inner)
             if m and self._balanced(m.group(1)):
                 r, p = self.parse_place(m.group(1))
                 return r, p + [("downcast", m.group(2))]
@@ -490,7 +499,11 @@ class Executor:
         if isinstance(v, Agg):
             return "%s:%s(%s)" % (v.ty, v.variant, ",".join(self.deep_key(st, f, depth + 1) for f in v.fields))
         if isinstance(v, Opaque) and v.over:
-            return "opq:%s{%s}" % (v.k, ",".join("%s=%s" % (p, self.deep_key(st, x, depth + 1)) for p, x in sorted(v.over.items(), key=lambda x: str(x[0]))))
+            return "opq:%s{%s}" % (kfmt(v.k), ",".join("%s=%s" % (kfmt(p), self.deep_key(st, x, depth + 1)) for p, x in sorted(v.over.items(), key=lambda x: str(x[0]))))
+        if isinstance(v, (BV, BoolV)) and z3.is_const(v.term) and v.term.decl().kind() == z3.Z3_OP_UNINTERPRETED:
+            o = self.origin.get(v.term.decl().name())
+            if o is not None:
+                return ("bv:" if isinstance(v, BV) else "b:") + o
         return vkey(v)
 
     # ---- operands / rvalues ----------------------------------------------------------------------
@@ -530,6 +543,8 @@ class Executor:
 
     def operand(self, st, fid, s):
         s = s.strip()
+        if s.startswith("no_retag "):
+            s = s[9:]
         if s.startswith("copy "):
             return self.read_place(st, fid, s[5:])
         if s.startswith("move "):
@@ -645,6 +660,8 @@ class Executor:
         if m and not rhs.startswith("&&"):
             root, path = self.resolve(st, fid, m.group(2))
             return Ref(root, path, (m.group(1) or "").strip() in ("mut", "raw mut"))
+        if rhs.startswith("no_retag "):
+            rhs = rhs[9:]
         if rhs.startswith(("copy ", "move ", "const ")):
             # cast?
             m = re.match(r"^(.*) as (.*) \((\w+)(\(.*\))?\)$", rhs)
@@ -687,7 +704,7 @@ class Executor:
             if all(i.startswith(("copy ", "move ", "const ")) for i in items):
                 return Agg("array", None, [self.operand(st, fid, i) for i in items])
         # struct aggregate with braces:  path { a: move _1, b: copy _2 }
-        m = re.match(r"^([\w:<>', &\[\]\(\)\*]+?) \{ (.*) \}$", rhs)
+        m = re.match(r"^([^{}]+?) \{ (.*) \}$", rhs) if not rhs.startswith("{") else None
         if m:
             name = short_type(m.group(1))
             fields, names = [], []
@@ -699,26 +716,37 @@ class Executor:
                 fields.append(self.operand(st, fid, fm.group(2)))
             return Agg(name, self._variant_of(m.group(1)), fields, names)
         # enum variant / tuple struct aggregate:  path(args)   (no `->`: that would be a call terminator)
-        m = re.match(r"^([\w:<>', &\[\]\(\)\*]+?)\((.*)\)$", rhs)
-        if m and self._balanced(m.group(2)):
-            items = split_top(m.group(2)) if m.group(2).strip() else []
-            if all(i.startswith(("copy ", "move ", "const ")) for i in items):
-                return Agg(self._enum_or_struct_name(m.group(1)), self._variant_of(m.group(1)),
-                           [self.operand(st, fid, i) for i in items])
+        if rhs.endswith(")") and not rhs.startswith(("{", "(", "[")):
+            depth, j = 0, len(rhs) - 1
+            while j >= 0:
+                if rhs[j] == ")":
+                    depth += 1
+                elif rhs[j] == "(":
+                    depth -= 1
+                    if depth == 0:
+                        break
+                j -= 1
+            head, inner = rhs[:j], rhs[j + 1:-1]
+            if j > 0 and "::" in head and self._balanced(inner):
+                items = split_top(inner) if inner.strip() else []
+                if all(i.startswith(("copy ", "move ", "const ")) for i in items):
+                    return Agg(self._enum_or_struct_name(head), self._variant_of(head),
+                               [self.operand(st, fid, i) for i in items])
         # unit variant / unit struct:   path::Variant
-        if re.match(r"^[\w:<>', &\[\]\(\)]+$", rhs) and "::" in rhs:
+        if re.match(r"^[\w:<>', &\[\]\(\)+.*#]+$", rhs) and "::" in rhs and not rhs.startswith(("copy", "move", "const")):
             sg = strip_generics(rhs).split("::")
             if len(sg) >= 2 and sg[-2] in self.enums and sg[-1] in self.enums[sg[-2]]:
                 return Agg(sg[-2], sg[-1], [])
             return Agg(sg[-1], None, [])
         if rhs.startswith("{closure@") or rhs.startswith("{coroutine@") or rhs.startswith("{async"):
             m = re.match(r"^(\{[^}]*\})( \{ (.*) \})?$", rhs)
-            ups = []
+            ups, names = [], []
             if m and m.group(3):
                 for item in split_top(m.group(3)):
                     fm = re.match(r"^(\w+): (.*)$", item)
+                    names.append(fm.group(1) if fm else "?")
                     ups.append(self.operand(st, fid, fm.group(2)) if fm else self.operand(st, fid, item))
-            return Agg("closure", m.group(1) if m else rhs, ups)
+            return Agg("closure", m.group(1) if m else rhs, ups, names)
         raise Unsupported("rvalue: " + rhs)
 
     def _variant_of(self, path):
@@ -825,8 +853,17 @@ class Executor:
             raise Unsupported("statement: " + s)
         lhs, rhs = m.group(1), m.group(2)
         if lhs.startswith("discriminant("):
-            # SetDiscriminant
-            raise Unsupported("SetDiscriminant: " + s)
+            # SetDiscriminant (coroutine state / enum construction in place)
+            place = lhs[len("discriminant("):-1]
+            root, path = self.resolve(st, fid, place)
+            cur = self.get_path(st, self.read_root(st, root), path)
+            val = self.const(st, rhs + "_isize") if re.match(r"^-?\d+$", rhs) else self.operand(st, fid, rhs)
+            if isinstance(cur, Opaque):
+                over = dict(cur.over)
+                over[("discr",)] = val
+                self.set_at(st, root, path, Opaque(cur.ty, cur.k, over))
+                return
+            raise Unsupported("SetDiscriminant on %r" % (cur,))
         local, _ = self.parse_place(lhs)
         v = self.rvalue(st, fid, rhs, fn.locals.get(local, "?"))
         self.write_place(st, fid, lhs, v)
@@ -934,8 +971,11 @@ class Executor:
         ret_bb = tg.get("return")
         args_s = split_top(argstr) if argstr.strip() else []
         args = [self.operand(st, fid, a) for a in args_s]
-        dlocal, _ = self.parse_place(dest)
+        dlocal, dproj = self.parse_place(dest)
         dest_ty = fn.locals.get(dlocal, "?")
+        if dproj:
+            lastf = [p for p in dproj if p[0] == "field"]
+            dest_ty = lastf[-1][2] if lastf and dproj[-1][0] == "field" else "?"
         cname = callee.strip()
         outcome = None
         handled = False
@@ -1103,7 +1143,7 @@ class Executor:
                     ty = old.ty if isinstance(old, (Opaque,)) else "?"
                     if isinstance(old, (BV, BoolV)):
                         continue  # scalars behind &mut are havoced too
-                    self.set_at(st, a.root, list(a.path), Opaque(ty, ("havoc", sc, st.count("havoc"))))
+                    self.set_at(st, a.root, list(a.path), Opaque(ty, ("havoc", sc, st.count("havoc"), self.deep_key(st, old))))
         return res
 
 
